@@ -1,6 +1,7 @@
 import StunVerif.Props.C15
 import StunVerif.Props.SrcFnAgent
 import StunVerif.Props.SrcFnPoll
+import StunVerif.Props.SrcFnGlue
 #print axioms StunVerif.C15.step_validated
 #print axioms StunVerif.C15.validated_iff
 #print axioms StunVerif.C15.monotone
@@ -31,3 +32,15 @@ import StunVerif.Props.SrcFnPoll
 #print axioms StunVerif.SrcFnPoll.foldl_congr_mem
 #print axioms StunVerif.SrcFnPoll.minWait_as_map
 #print axioms StunVerif.SrcFnPoll.src_agentPoll
+#print axioms StunVerif.SrcFnGlue.src_reqNew
+#print axioms StunVerif.SrcFnGlue.src_mtypeClass
+#print axioms StunVerif.SrcFnGlue.accepted
+#print axioms StunVerif.SrcFnGlue.src_msgGetType
+#print axioms StunVerif.SrcFnGlue.src_msgClass
+#print axioms StunVerif.SrcFnGlue.src_msgMethod
+#print axioms StunVerif.SrcFnGlue.src_msgHasClass
+#print axioms StunVerif.SrcFnGlue.src_msgHasMethod
+#print axioms StunVerif.SrcFnGlue.src_msgTransactionId
+#print axioms StunVerif.SrcFnGlue.src_msgRawAttribute
+#print axioms StunVerif.SrcFnGlue.src_msgHasAttribute
+#print axioms StunVerif.SrcFnGlue.src_inMsg
